@@ -80,7 +80,7 @@ package go_clipper2
 //@ spec memberOf(p Point64, path Path64) bool = exists(j, 0, len(path), path[j] == p)
 //@ spec collExact(path Path64) bool = forall(i, 0, len(path), forall(j, 0, len(path), forall(k, 0, len(path), isCollinear(path[i], path[j], path[k]) == (cross(path[i], path[j], path[k]) == 0))))
 
-//@ func TrimCollinear64
+//@ func trimCollinear64Pass
 //@   props C15 C03
 //@   pure
 //@   requires domPath(path, 29)
@@ -97,13 +97,26 @@ package go_clipper2
 //@   loop 2 step [kept-or-collinear] i == old(i) + 1 && ((same(result, old(result)) && last == old(last) && isCollinear(old(last), path[old(i)], path[old(i)+1])) || (len(result) == old(len(result)) + 1 && result[len(result)-1] == path[old(i)] && last == path[old(i)] && !isCollinear(old(last), path[old(i)], path[old(i)+1])))
 //@   loop 2 decreases l - i
 //@   loop 3 invariant [members] forall(k, 0, len(result), memberOf(result[k], path))
-//@   loop 3 invariant [len] len(result) >= 1
+//@   loop 3 invariant [len] len(result) >= 1 && len(result) <= len(path)
 //@   loop 3 decreases len(result)
 //@   ensures [open-ends] (isOpen && len(result) > 0) ==> (result[0] == path[0] && result[len(result)-1] == path[len(path)-1])
 //@   ensures [closed-size-if-exact] (!isOpen && collExact(path)) ==> (len(result) == 0 || len(result) >= 3)
-//@   expect  [closed-size] !isOpen ==> (len(result) == 0 || len(result) >= 3)
 //@   ensures [members] forall(k, 0, len(result), memberOf(result[k], path))
 //@   ensures [short] len(path) < 3 && !isOpen ==> len(result) == 0
+//@   ensures [no-growth] len(result) <= len(path)
+//@   ensures [dom] domPath(result, 29)
+
+//@ func TrimCollinear64
+//@   props C15 C03
+//@   pure
+//@   requires domPath(path, 29)
+//@   loop 0 invariant [members] forall(k, 0, len(path), memberOf(path[k], old(path))) && domPath(path, 29) && len(path) <= len(old(path))
+//@   loop 0 invariant [open-ends] (isOpen && len(path) > 0) ==> (len(old(path)) > 0 && path[0] == old(path)[0] && path[len(path)-1] == old(path)[len(old(path))-1])
+//@   loop 0 decreases len(path)
+//@   ensures [open-ends] (isOpen && len(result) > 0) ==> (result[0] == old(path)[0] && result[len(result)-1] == old(path)[len(old(path))-1])
+//@   ensures [closed-size] !isOpen ==> (len(result) == 0 || len(result) >= 3)
+//@   ensures [members] forall(k, 0, len(result), memberOf(result[k], old(path)))
+//@   ensures [short] len(old(path)) < 3 && !isOpen ==> len(result) == 0
 
 // ---------------------------------------------------------------------------------
 // C12: engine answers depend only on the paths added
